@@ -165,9 +165,16 @@ def mon_c06(H, R, case):
     req_mult = {}
     for r in case['request']:
         req_mult[r] = req_mult.get(r, 0) + 1
+    required = set()
+    for fd in case.get('forms', []):
+        for l in fd.get('required', []):
+            required.add((fd['name'], l['name']))
     for f, n in attempts.items():
         form = f.split('.')[0]
-        c = max(1, req_mult.get(form, 0)) + case['fields'].count(f)
+        # how often the line is put on the queue by the request itself: as a required line of each requested copy of its form, and
+        # once per mention among the individually requested lines; a line that is neither is scheduled once, on demand
+        is_req = (form.split(':')[0], f.split('.', 1)[1]) in required
+        c = max(1, (req_mult.get(form, 0) if is_req else 0) + case['fields'].count(f))
         w = len(set(waits.get(f, []))) + len(set(getattr(R, 'loads', {}).get(f, [])))
         if n > c * (1 + len(set(waits.get(f, [])))) + len(set(getattr(R, 'loads', {}).get(f, []))):
             out.append('line %s evaluated %d times; scheduled %d time(s), waited for %d distinct things' % (f, n, c, w))
@@ -199,8 +206,25 @@ def run(tier, seed):
     # run with wait logging + attempt budget
     def monitor(H, R, case):
         return mon_c06(H, R, case)
+    # more programs in which lines are requested individually (field_names): optional lines of requested forms, which other lines
+    # may demand while they are still unsolved
+    extra = []
+    for _ in range(400 if tier == 'quick' else 5000):
+        case = sc.gen_case(rng)
+        if case['fields'] or not case['request']:
+            continue
+        by_name = {fd['name']: fd for fd in case['forms']}
+        picks = []
+        for inst in case['request']:
+            fd = by_name.get(inst.split(':')[0])
+            if fd and fd.get('optional'):
+                picks.append('%s.%s' % (inst, rng.choice(fd['optional'])['name']))
+        if picks:
+            case['fields'] = picks[:rng.choice([1, 1, 2])]
+            extra.append(case)
+    ck.cov['programs_with_individually_requested_optional_lines'] = len(extra)
     bad = 0
-    for case in dis_cases + cases:
+    for case in dis_cases + cases + extra:
         R = exec_with_waits(H, case)
         if R.budget_exceeded or isinstance(R.exc, common.SolveDidNotFinish):
             ck.violation('C06:generated:attempt-budget', 'solve did not finish within %d attempts / %d passes of the main loop (%s)' % (
